@@ -361,6 +361,18 @@ def mon_C07(hist, ctxs, kf):
             nontrivial += 1
             if pre != post:
                 v.append((x.i, "reclaimed answer but the database changed"))
+        if x.kind == "cmd" and x.mtype == "list" and x.c in x.bound_pre and not x.crash \
+           and hist["cfg"].get("allow_list", True):
+            # a nameplate is listed exactly while it lives: from its first claim until the last release, its
+            # expiry or the deletion of its mailbox -- never after, never twice
+            a = x.bound_pre[x.c][0]
+            for f in x.frames_c:
+                if f[3] == "nameplates" and isinstance(f[4], list):
+                    nontrivial += 1
+                    live = sorted(r[2] for r in pre["np"] if r[1] == a)
+                    if sorted(f[4]) != live:
+                        v.append((x.i, "list in app %s answered %s but the live nameplates of that app are %s"
+                                  % (unhex(a), [unhex(n) for n in sorted(f[4])], [unhex(n) for n in live])))
         if x.kind == "cmd" and x.mtype == "claim" and not x.crash and x.c in x.bound_pre \
            and isinstance(x.msg.get("nameplate"), str):
             # a `claimed` answer is a live nameplate row with a claim of that side behind it - whatever
